@@ -115,3 +115,39 @@ VERIF_MOD = Raw("""
 #[verifier::external_body] pub fn hole_bool() -> bool { unimplemented!() }
 """, module="verif")
 
+def node_specs(ty, prefix, fields, cfg=""):
+    """assumed specifications for the getters and builders of a full_moon node.
+    fields: (name, rust type, kind) with kind in
+       'ref'      tracked, getter returns &T            builder takes T
+       'opt'      tracked, getter returns Option<&T>    builder takes Option<T>
+       '-'        untracked, getter returns &T          builder takes T
+       '-opt'     untracked, getter returns Option<&T>  builder takes Option<T>
+       'w:<name>' builder only (untracked), named with_<name>"""
+    tracked = [(f[0], f[1], f[2]) for f in fields if f[2] in ("ref", "opt")]
+    out = []
+    for n, t, k in tracked:
+        st = t if k == "ref" else f"Option<{t}>"
+        out.append(f"{cfg}pub uninterp spec fn {prefix}_{n}(n: &{ty}) -> {st};")
+    def same(but=None):
+        return ", ".join(f"{prefix}_{n}(&r) == {prefix}_{n}(&n)" for n, _, _ in tracked if n != but) or "true"
+    for f in fields:
+        n, t, k = f[:3]
+        wn = f[3] if len(f) > 3 else "with_" + n        # the builder's name, where it is not with_<getter>
+        if k.startswith("w:"):
+            out.append(f"{cfg}pub assume_specification [{ty}::with_{k[2:]}] (n: {ty}, v: {t}) -> (r: {ty}) ensures {same()};")
+            continue
+        if k == "ref":
+            out.append(f"{cfg}pub assume_specification [{ty}::{n}] (n: &{ty}) -> (r: &{t}) ensures *r == {prefix}_{n}(n);")
+            out.append(f"{cfg}pub assume_specification [{ty}::{wn}] (n: {ty}, v: {t}) -> (r: {ty}) ensures {prefix}_{n}(&r) == v, {same(n)};")
+        elif k == "opt":
+            out.append(f"{cfg}pub assume_specification [{ty}::{n}] (n: &{ty}) -> (r: Option<&{t}>) ensures (r is Some) == ({prefix}_{n}(n) is Some), r is Some ==> *r->Some_0 == {prefix}_{n}(n)->Some_0;")
+            out.append(f"{cfg}pub assume_specification [{ty}::{wn}] (n: {ty}, v: Option<{t}>) -> (r: {ty}) ensures {prefix}_{n}(&r) == v, {same(n)};")
+        elif k == "-":
+            out.append(f"{cfg}pub assume_specification [{ty}::{n}] (n: &{ty}) -> (r: &{t});")
+            out.append(f"{cfg}pub assume_specification [{ty}::{wn}] (n: {ty}, v: {t}) -> (r: {ty}) ensures {same()};")
+        elif k == "-opt":
+            out.append(f"{cfg}pub assume_specification [{ty}::{n}] (n: &{ty}) -> (r: Option<&{t}>);")
+            out.append(f"{cfg}pub assume_specification [{ty}::{wn}] (n: {ty}, v: Option<{t}>) -> (r: {ty}) ensures {same()};")
+    out.append(f"{cfg}pub assume_specification [<{ty} as Clone>::clone] (n: &{ty}) -> (r: {ty}) ensures r == *n;")
+    return "\n".join(out) + "\n"
+
